@@ -3,7 +3,7 @@
 # Applies a seeded change to /repo's working tree, runs the given checks, and ALWAYS restores /repo.
 # Prints one line per check: <id> exit=<code> [first VIOLATION kind]
 set -u
-patch="$1"; tier="$2"; shift 2
+patch="$(readlink -f "$1")"; tier="$2"; shift 2
 cd /repo || exit 2
 if [ -n "$(git status --porcelain --untracked-files=no)" ]; then echo "/repo is not clean" >&2; exit 2; fi
 if ! git apply --check "$patch" 2>/dev/null; then echo "patch does not apply: $patch" >&2; exit 2; fi
